@@ -63,4 +63,12 @@ CHECKS = {
                  "re-assembled by the harness), one strict orientation for all triangles where the theorem applies, agreement of per-vertex and per-corner "
                  "storage and of flat_mesh, rejection of surfaces with Euler characteristic != 1.",
          "design_ref": "DESIGN.md section 6 C17", "note": _NOTE, "technique": "runtime monitoring: output invariants with reference-assembled weights + storage-mode metamorphic check"},
+ "C18": {"text": "Invariant and metamorphic monitors on real SurfaceFrameField runs (orders 1-6, vertices/faces, closed/bordered, features, smoothing, "
+                 "cotan/uniform): unit modulus with a hook on FrameField.normalize recording pre-normalisation magnitudes; constrained elements kept and one "
+                 "branch tangent to the single feature edge of a face; quantised singularity indices summing to 4*chi; with smoothing off the field equals the "
+                 "dense re-solve (normalised harmonic extension) with the library's own connection Laplacian, which must be Hermitian and reduce to the scalar "
+                 "Laplacian for a flat connection; edge-relative branch angles unchanged on a harness-built renumbered and face-rotated copy.",
+         "design_ref": "DESIGN.md section 6 C18", "note": _NOTE + " cad_correction (OSQP) is off: OSQP.setup() fails in this sandbox as in the 13 pre-existing test failures. "
+                 "Four genuine defects are recorded as known findings (K-C18-1..4).",
+         "technique": "runtime monitoring: output invariants + hook on normalize + dense re-solve oracle + renumbering metamorphic monitor"},
 }
